@@ -426,6 +426,33 @@ class FunctionTranslator:
             term = "(bnd %s fun %s => %s)" % (t, v, term)
         return False, term
 
+    def _is_object_param(self, name):
+        """the parameter is only ever used as the receiver of method calls (never read as a value, never assigned)."""
+        recv = set()
+        for n in ast.walk(self.fn):
+            if isinstance(n, ast.Call) and isinstance(n.func, ast.Attribute) and isinstance(n.func.value, ast.Name) \
+                    and n.func.value.id == name and not n.keywords:
+                recv.add(id(n.func.value))
+        for n in ast.walk(self.fn):
+            if isinstance(n, ast.Name) and n.id == name and id(n) not in recv:
+                return False
+        return bool(recv)
+
+    def apply_method(self, recv, attr, args, scope, assigned):
+        names, binds = [], []
+        for a in args:
+            pure, t = self.expr(a, scope, assigned)
+            if pure:
+                names.append(t)
+            else:
+                v = self.tmp()
+                binds.append((t, v))
+                names.append(v)
+        term = "(pyCallMethod e.%s %s [%s])" % (fld(recv.id), lean_str(attr), ", ".join(names))
+        for t, v in reversed(binds):
+            term = "(bnd %s fun %s => %s)" % (t, v, term)
+        return False, term
+
     def callable_as_lambda(self, node, scope, assigned):
         """a first-class callable passed to map(): str, int, or <value>.index"""
         if isinstance(node, ast.Name) and node.id == "str":
@@ -477,6 +504,9 @@ class FunctionTranslator:
                 return self.apply("pyFilter (fun %s => %s)" % (var, body), [a[1]], scope, assigned)
             if nm in self.m.itertools and self.m.itertools[nm] == "product" and len(a) == 1 and isinstance(a[0], ast.Starred):
                 return self.apply("pyProduct", [a[0].value], scope, assigned)
+            if nm in self.m.itertools and self.m.itertools[nm] == "combinations" and len(a) == 2 and \
+                    isinstance(a[1], ast.Constant) and a[1].value == 2:
+                return self.apply("pyCombinations2", [a[0]], scope, assigned)
             if nm == "map" and len(a) == 2:
                 return self.apply("pyMap %s" % self.callable_as_lambda(a[0], scope, assigned), [a[1]], scope, assigned)
             if nm in self.m.monitor_classes and not a:
@@ -490,6 +520,10 @@ class FunctionTranslator:
                     "tolist": ("npToList", 0)}
             if f.attr in meth and len(node.args) == meth[f.attr][1]:
                 return self.apply(meth[f.attr][0], [f.value] + node.args, scope, assigned)
+            if isinstance(f.value, ast.Name) and f.value.id in self.params and self._is_object_param(f.value.id):
+                # a method of an object handed in by the caller (e.g. `bio_filter.valid(kmer)`): the object is
+                # represented by the table of its answers (Py/Value.lean, `pyCallMethod`)
+                return self.apply_method(f.value, f.attr, node.args, scope, assigned)
             if f.attr == "copy" and not node.args:
                 return self.expr(f.value, scope, assigned)          # values are immutable in the target: a copy is the value
             if f.attr == "astype" and len(node.args) == 1 and isinstance(node.args[0], ast.Name) and node.args[0].id in ("bool", "int"):
@@ -517,6 +551,9 @@ class FunctionTranslator:
         if real == "where":
             if len(a) == 1 and not kws:
                 return self.apply("npWhere", a, scope, assigned)
+        elif real == "union1d":
+            if len(a) == 2 and not kws:
+                return self.apply("npUnion1d", a, scope, assigned)
         elif real == "argsort":
             if len(a) == 1 and not kws:
                 return self.apply("npArgsort", a, scope, assigned)
@@ -538,6 +575,8 @@ class FunctionTranslator:
             if len(a) == 1 and not kws:
                 if dt == "bool":
                     return self.apply("npZerosBool" if real == "zeros" else "npOnesBool", a, scope, assigned)
+                if real == "zeros" and isinstance(a[0], ast.Tuple) and len(a[0].elts) == 2:
+                    return self.apply("npZeros2", a[0].elts, scope, assigned)
                 return self.apply("npZeros" if real == "zeros" else "npOnes", a, scope, assigned)
         raise Unsupported("%s: NumPy call %s" % (self.name, real))
 
@@ -791,6 +830,10 @@ class FunctionTranslator:
             if isinstance(c.func, ast.Name) and c.func.id == "print":
                 return self.block(rest, assigned, in_loop)      # console output: not modelled (like the monitor)
             raise Unsupported("%s: expression statement" % self.name)
+        if isinstance(st, ast.Delete) and len(st.targets) == 1 and isinstance(st.targets[0], ast.Name) and \
+                st.targets[0].id in self.locals:
+            nm = st.targets[0].id
+            return "let e : Env := %s\n%s" % (self.assign_names([(nm, ".unbound")]), rest_fn(assigned - {nm})), result_assigned["a"]
         if isinstance(st, ast.Delete):
             if len(st.targets) != 1 or not isinstance(st.targets[0], ast.Subscript) or \
                     not isinstance(st.targets[0].value, ast.Name) or isinstance(st.targets[0].slice, (ast.Slice, ast.Tuple)):
